@@ -22,11 +22,12 @@ class SimClock:
     def __init__(self, sched, epoch):
         self._sched = sched
         self._epoch = epoch
+        self.offset = 0.0  # wall-clock steps (NTP, operator); monotonic() is unaffected
         self.reads = 0
 
     def time(self):
         self.reads += 1
-        return self._epoch + self._sched.now
+        return self._epoch + self._sched.now + self.offset
 
     def time_ns(self):
         return int(self.time() * 1e9)
